@@ -138,7 +138,7 @@ def _search_region(text, recipe):
     ms = [m for m in re.finditer(scope, text) if mask[m.start()]]
     if len(ms) != 1:
         raise ExtractError('scope %r matches %d times in %s' % (scope, len(ms), recipe['file']))
-    b = text.find('{', ms[0].end())
+    b = text.find('{', ms[0].end() - 1 if text[ms[0].end() - 1] == '{' else ms[0].end())
     while b >= 0 and not mask[b]:
         b = text.find('{', b + 1)
     if b < 0:
@@ -347,7 +347,56 @@ def apply_recipe(body, recipe, fired):
 
     if recipe.get('strip_comments', True):
         body = strip_comments(body)
-    # R10 first, positions refer to original text
+    # R11: brace the single-statement body of the listed loops (semantics preserving; needed so that ghost
+    # statements can be inserted into the body)
+    for k in sorted(recipe.get('brace_loops') or [], reverse=True):
+        lp = find_loops(body)
+        if k > len(lp):
+            raise ExtractError('brace_loops: loop #%d not found' % k)
+        kind_, pos = lp[k - 1]
+        mask = code_mask(body)
+        b = next_code_char(body, mask, pos)
+        if body[b] == '{':
+            note('R11-brace-loop-%d' % k, 0, False)
+            continue
+        depth = 0
+        e = b
+        while e < len(body):
+            if mask[e]:
+                if body[e] in '([{':
+                    depth += 1
+                elif body[e] in ')]}':
+                    depth -= 1
+                elif body[e] == ';' and depth == 0:
+                    break
+            e += 1
+        nxt = next_code_char(body, mask, e + 1)
+        if body.startswith('else', nxt):
+            raise ExtractError('brace_loops: body of loop #%d continues with else; not handled' % k)
+        body = body[:b] + '{ ' + body[b:e + 1] + ' }' + body[e + 1:]
+        note('R11-brace-loop-%d' % k, 1, True)
+    for ins in recipe.get('inserts') or []:
+        pat, txt, where = ins[0], ins[1], (ins[2] if len(ins) > 2 else 'before')
+        if isinstance(pat, int):
+            # ghost statement at the start of the (braced) body of loop #pat
+            lp = find_loops(body)
+            if pat > len(lp):
+                raise ExtractError('insert: loop #%d not found' % pat)
+            mask = code_mask(body)
+            b = next_code_char(body, mask, lp[pat - 1][1])
+            if body[b] != '{':
+                raise ExtractError('insert: body of loop #%d is not braced (use brace_loops)' % pat)
+            body = body[:b + 1] + '\n' + txt + '\n' + body[b + 1:]
+            note('R10-insert:loop-%d-body-start' % pat, 1, True)
+            continue
+        mask = code_mask(body)
+        ms = [m for m in re.finditer(pat, body) if mask[m.start()]]
+        if len(ms) != 1:
+            raise ExtractError('insert anchor %r matches %d times' % (pat, len(ms)))
+        pos = ms[0].start() if where == 'before' else ms[0].end()
+        body = body[:pos] + '\n' + txt + '\n' + body[pos:]
+        note('R10-insert:' + pat, 1, True)
+    # R10, positions refer to the text after R11
     loops = recipe.get('loops') or {}
     if loops:
         lp = find_loops(body)
@@ -358,15 +407,6 @@ def apply_recipe(body, recipe, fired):
             pos = lp[k - 1][1]
             body = body[:pos] + '\n' + want[k] + '\n' + body[pos:]
         note('R10-loop-contracts', len(want), True)
-    for ins in recipe.get('inserts') or []:
-        pat, txt, where = ins[0], ins[1], (ins[2] if len(ins) > 2 else 'before')
-        mask = code_mask(body)
-        ms = [m for m in re.finditer(pat, body) if mask[m.start()]]
-        if len(ms) != 1:
-            raise ExtractError('insert anchor %r matches %d times' % (pat, len(ms)))
-        pos = ms[0].start() if where == 'before' else ms[0].end()
-        body = body[:pos] + '\n' + txt + '\n' + body[pos:]
-        note('R10-insert:' + pat, 1, True)
     if recipe.get('casts'):
         body, n = rewrite_casts(body)
         note('R2-casts', n, False)
@@ -438,8 +478,11 @@ def expand_template(repo, template_text, defines=None):
             units.append(d)
             return ''
         cond = d.get('if')
-        if cond and not (defines or {}).get(cond):
-            return ''
+        if cond:
+            k, _, v = cond.partition('=')
+            have = (defines or {}).get(k)
+            if have is None or (v and str(have) != v):
+                return ''
         txt, info = extract(repo, d)
         infos.append(info)
         return txt
